@@ -139,8 +139,9 @@ def handleVarint (args : List String) : String :=
     match unhex? (if h = "-" then [] else h.toList) with
     | some bs =>
       match decodeUint64 bs with
-      | some (x, rest) => toString x ++ " " ++ toString (bs.length - rest.length)
-      | none => "err"
+      | .ok (x, rest) => toString x ++ " " ++ toString (bs.length - rest.length)
+      | .err => "err"
+      | .panic => "panic"
     | none => "bad-op"
   | _ => "bad-op"
 
